@@ -65,6 +65,29 @@ func timeNs(v Value) *Term { return v.(*StructV).F[1].(*Term) }
 // now models time.Now(): the first reading is an arbitrary instant in [0, 2^60); every later one
 // is the previous reading plus an arbitrary non-negative step of at most 2^50 ns (~13 days), so
 // that differences of instants normalise syntactically to sums of steps.
+// sleep advances the clock by at least d (and at most the usual step bound).
+func (w *Worker) sleep(s *State, d *Term) {
+	tc := w.tc
+	if s.clock == nil {
+		w.now(s)
+	}
+	if s.ghost != nil {
+		if _, frozen := s.ghost["clockfrozen"]; frozen {
+			return
+		}
+	}
+	s.nclock++
+	st := w.input(s, "clock.sleep"+strconv.Itoa(s.nclock), bv(64))
+	c := tc.And(tc.Cmp("bvsle", d, st), tc.Cmp("bvsle", tc.BV(64, 0), st), tc.Cmp("bvsle", st, tc.BV(64, 1<<50)))
+	if c.IsFalse() {
+		panic(pathDead{})
+	}
+	if !c.IsTrue() {
+		s.pc = s.pc.push(c)
+	}
+	s.clock = tc.Add(s.clock, st)
+}
+
 func (w *Worker) now(s *State) *Term {
 	s.nclock++
 	tc := w.tc
@@ -548,11 +571,37 @@ func init() {
 			if c == nil {
 				panic(crash{"errgroup.Go(nil)"})
 			}
+			if s.threadsOn {
+				id := w.spawn(s, func() { s.pushFrame(c.Fn, nil, c.Bind, -1) })
+				if s.groups == nil {
+					s.groups = map[string][]int{}
+				}
+				k := objKey(a[0])
+				s.groups[k] = append(s.groups[k], id)
+				return nil, false
+			}
 			fr := s.pushFrame(c.Fn, nil, c.Bind, -1)
 			fr.discard = true
 			return nil, true
 		},
-		"(*golang.org/x/sync/errgroup.Group).Wait": nilErr,
+		"(*golang.org/x/sync/errgroup.Group).Wait": func(w *Worker, s *State, f *Frame, fn *ssa.Function, a []Value, d int) (Value, bool) {
+			if s.threadsOn {
+				// the goroutines' error results are not propagated (the functions under analysis return nil)
+				if !w.schedPoint(s, &waitDesc{kind: "join", join: append([]int(nil), s.groups[objKey(a[0])]...)}) {
+					return nil, true
+				}
+			}
+			return IfaceV{}, false
+		},
+		"time.Sleep": func(w *Worker, s *State, f *Frame, fn *ssa.Function, a []Value, d int) (Value, bool) {
+			if s.threads != nil {
+				if !w.schedPoint(s, &waitDesc{kind: "sleep"}) {
+					return nil, true
+				}
+			}
+			w.sleep(s, w.term(a[0]))
+			return nil, false
+		},
 		"(*sync.Mutex).Lock":                         lockStub(1, "mutex"),
 		"(*sync.Mutex).Unlock":                       lockStub(-1, "mutex"),
 		"(*sync.RWMutex).Lock":                       lockStub(1, "rw"),
@@ -599,6 +648,7 @@ func init() {
 	}
 	delete(stubs, "(*github.com/prometheus/prometheus/pkg/labels.Labels).Get")
 	_ = noop
+	_ = nilErr
 }
 
 type obsTerm struct {
@@ -620,10 +670,19 @@ func lockStub(delta int, kind string) stubFn {
 		if p.O == nil {
 			panic(crash{"nil mutex"})
 		}
+		key := fmt.Sprintf("%d%v", p.O.ID, p.Path)
 		if delta > 0 {
+			wk := "lock"
+			if kind == "r" {
+				wk = "rlock"
+			}
+			if s.threads != nil {
+				if !w.schedPoint(s, &waitDesc{kind: wk, key: key}) {
+					return nil, true
+				}
+			}
 			s.lockCount++
 		}
-		key := fmt.Sprintf("%d%v", p.O.ID, p.Path)
 		switch kind {
 		case "mutex", "rw":
 			if delta > 0 {
